@@ -504,6 +504,56 @@ theorem split_first_match (preds : List (SPath → α → Bool)) (s : SMap α) (
     Option.some_or]
   rw [List.take_left' hlen]
 
+/-! #### type filters overlap (`Variable ⊇ Param ⊇ LoRAParam`): first match still decides
+
+`split_first_match` / `filter_first_match` are stated for arbitrary predicates, so they cover plain type filters
+(`ofType`), which are *not* disjoint: a leaf of type `Param` also matches `Variable`. The next three theorems spell
+out what first-match means for overlapping type filters. -/
+
+/-- a type filter at position `i` that matches the leaf caps the bucket index: the leaf cannot land later -/
+theorem firstIdx_le_of_holds (preds : List (SPath → α → Bool)) (p : SPath) (a : α) (i : Nat)
+    (f : SPath → α → Bool) (hf : preds[i]? = some f) (hh : f p a = true) : firstIdx preds p a ≤ i := by
+  rcases Nat.lt_or_ge i (firstIdx preds p a) with hlt | hge
+  · have := (firstIdx_spec preds p a).1 i hlt f hf
+    rw [hh] at this; cases this
+  · exact hge
+
+/-- **broad type first, narrower type later: the narrower filter's state is empty.** If every leaf that matches the
+filter at position `j` also matches the (broader) filter at an earlier position `i`, then no leaf lands in bucket
+`j` — e.g. `split(Variable, Param, ...)` and `split(Param, LoRAParam, ...)`: everything goes to the first one. -/
+theorem shadowed_filter_bucket_empty (preds : List (SPath → α → Bool)) (i j : Nat) (hij : i < j)
+    (fi fj : SPath → α → Bool) (hi : preds[i]? = some fi) (hj : preds[j]? = some fj)
+    (hsub : ∀ p a, fj p a = true → fi p a = true) (m : Flat α) : bucket preds j m = [] := by
+  simp only [bucket, List.filter_eq_nil_iff, beq_iff_eq]
+  intro e _ he
+  have h1 := (firstIdx_spec preds e.1 e.2).2 fj (by rw [he]; exact hj)
+  have h2 := firstIdx_le_of_holds preds e.1 e.2 i fi hi (hsub e.1 e.2 h1)
+  omega
+
+/-- the instance for type filters: `t₂`'s MRO contains `t₁` (`t₂` is a subclass of `t₁`) -/
+theorem subclass_after_baseclass_empty (typesOf : α → List String) (t1 t2 : String)
+    (hsub : ∀ a, t2 ∈ typesOf a → t1 ∈ typesOf a)
+    (preds : List (SPath → α → Bool)) (i j : Nat) (hij : i < j)
+    (hi : preds[i]? = some (ofType typesOf t1)) (hj : preds[j]? = some (ofType typesOf t2)) (m : Flat α) :
+    bucket preds j m = [] :=
+  shadowed_filter_bucket_empty preds i j hij _ _ hi hj
+    (fun _ a h => by simp only [ofType, decide_eq_true_eq] at h ⊢; exact hsub a h) m
+
+/-- a concrete hierarchy: leaves of types Param, LoRAParam (a Param), BatchStat; `split(Param, LoRAParam, ...)` puts
+the LoRAParam leaf into the *first* state, `split(LoRAParam, Param, ...)` into its own -/
+example :
+    let typesOf : Int → List String := fun a =>
+      if a = 1 then ["Param", "Variable"] else if a = 2 then ["LoRAParam", "Param", "Variable"]
+      else ["BatchStat", "Variable"]
+    let s : SMap Int := [(.str "enc", .dict [(.str "kernel", .leaf 1), (.str "lora_a", .leaf 2), (.str "mean", .leaf 3)])]
+    splitState [ofType typesOf "Param", ofType typesOf "LoRAParam", fun _ _ => true] s
+      = .ok [[(.str "enc", .dict [(.str "kernel", .leaf 1), (.str "lora_a", .leaf 2)])], [],
+             [(.str "enc", .dict [(.str "mean", .leaf 3)])]] ∧
+    splitState [ofType typesOf "LoRAParam", ofType typesOf "Param", fun _ _ => true] s
+      = .ok [[(.str "enc", .dict [(.str "lora_a", .leaf 2)])], [(.str "enc", .dict [(.str "kernel", .leaf 1)])],
+             [(.str "enc", .dict [(.str "mean", .leaf 3)])]] := by
+  refine ⟨rfl, rfl⟩
+
 /-- …and when some leaf matches no filter, `split_state` raises instead of dropping it. -/
 theorem split_non_exhaustive (preds : List (SPath → α → Bool)) (s : SMap α) (hwf : WFKvs s)
     (hex : ∃ e ∈ leaves s, firstIdx preds e.1 e.2 = preds.length) :
